@@ -3,6 +3,7 @@ import O2P.Lemmas.Cover
 import O2P.Lemmas.InferOr
 import O2P.Lemmas.InferOrTree
 import O2P.Lemmas.PostFlat
+import O2P.Lemmas.InferOrAll
 /-!
 # C06 — gate inference explains all observed successor sets; exact without mixed OR
 The quantifier of C06 is finite and is enumerated by `domain`: `domain_counts` (kernel-checked) gives
@@ -123,6 +124,45 @@ example : (inferOrNode [["c"], ["c", "a"]]
     refine ⟨[["c"], ["a"]], ?_, by intro x; simp⟩
     simp only [PTree.semAll, PTree.sem, PTree.semAny]
     exact ⟨["c"], [["a"]], rfl, fun _ => Iff.rfl, ["a"], [], rfl, Or.inr (Or.inl (Or.inl (fun _ => Iff.rfl))), rfl⟩
+
+/-- **C06, the OR inference over the whole tree** (`get_extended_or_gates_from_process_tree` = `inferOrAll`, the
+recursion: the node first, then its new children, to any depth and with any fuel).  Let the miner's tree `t` name
+every event once (`NE t.labels` without repetition), let no observed set contain the empty name, and let `t` satisfy the
+decidable condition `wfT false`: at every parallel node with optional branches `X(tau, …)` no mandatory child can
+produce the empty set (`canEmpty`, a sound test) and mandatory children share no label with the optional branches —
+the hypotheses of the per-node theorem — and, below the top, such a node has a mandatory child.  Then the rewritten
+tree produces every non-empty observed set that `t` produces.  The check evaluates `wfT` / `ND` on every real raw tree
+and reports how many meet the hypotheses; the others are judged by execution only.  (`Lemmas/InferOrAll.lean`: a
+relation `Good` — produces every non-empty projection of an observed set, keeps the empty set, adds no label — is
+a congruence for `X`, `+`, `O` nodes over trees with distinct names, holds for one rewritten node by
+`or_inference_tree_sound_below`, and composes along the recursion by induction on the fuel.) -/
+theorem or_inference_all_sound (F : List (List String)) (hF : ∀ s0 ∈ F, "" ∉ s0) (fuel : Nat) (t : PTree)
+    (hw : wfT false t = true) (hnd : (NE t.labels).Nodup)
+    (s : List String) (hs : s ∈ F) (hne : s ≠ []) (hraw : t.sem s) : (inferOrAll F fuel t).sem s :=
+  (inferOrAll_goodS F hF fuel false t hw hnd).pos s hne ⟨s, hs, fun _ _ => Iff.rfl⟩ hraw
+
+/-- non-vacuity: `+(c, X(tau, +(d, X(tau, a))))` — an optional branch holding a parallel node with an optional branch
+of its own — meets the hypotheses -/
+example :
+    let t : PTree := .node .and [.leaf "c", .node .xor [.tau, .node .and [.leaf "d", .node .xor [.tau, .leaf "a"]]]]
+    wfT false t = true ∧ (NE t.labels).Nodup ∧
+      ∀ s0 ∈ [["c"], ["c", "d"], ["c", "d", "a"]], "" ∉ s0 := by decide +kernel
+
+/-- **the condition below the top is needed**: `+(c, +(X(tau,a), X(tau,b)))` — a parallel node all of whose children
+are optional, below the top — fails `wfT`, and there the recursion (of the model, and of the real function: the C06
+check replays this tree through `get_extended_or_gates_from_process_tree`) is unsound: the inner node becomes
+`O(a, b)`, which cannot produce the empty set, so the rewritten tree `+(c, O(a, b))` no longer admits the observed
+`{c}`, which the raw tree produces.  The miner is not known to emit such a tree (none in the domain, none among the
+observed families of a run). -/
+example :
+    let t : PTree := .node .and [.leaf "c", .node .and [.node .xor [.tau, .leaf "a"], .node .xor [.tau, .leaf "b"]]]
+    let F := [["c"], ["a", "c"], ["b", "c"], ["a", "b", "c"]]
+    wfT false t = false ∧
+    (inferOrAll F 5 t).toGate = some (.node .and [.leaf "c", .node .or [.leaf "a", .leaf "b"]]) ∧
+    admits (.node .and [.leaf "c", .node .or [.leaf "a", .leaf "b"]]) ["c"] = false := by
+  refine ⟨by decide +kernel, ?_, by decide +kernel⟩
+  simp [inferOrAll, inferOrAllL, inferOrNode, classify, PTree.isTau, grandchildrenOf, checkIsOr, PTree.toGate,
+    PTree.toGateL]
 
 /-- the executable test of the model (`checkIsOr`, compared with the real function on generated trees) is that
 decision on the labels of the subtrees -/
